@@ -24,6 +24,16 @@ class K:
         return "K(%r)" % (self.v,)
 
 
+class Obj:
+    """an opaque non-None object of the scenario; its attributes are atoms `<name>.<attr>`"""
+
+    def __init__(self, name):
+        self.name = name
+
+    def __repr__(self):
+        return "Obj(%s)" % self.name
+
+
 class Raised(Exception):
     def __init__(self, name, node):
         self.name, self.node = name, node
@@ -60,6 +70,11 @@ class PE:
 
     def ev(self, node):
         """-> K | RF ; raises Raised for a Python exception decided by constants; AnalysisError when undecided"""
+        if isinstance(node, ast.Attribute):
+            ch0 = attr_chain(node)
+            if ch0 and isinstance(self.env.get(ch0[0]), K) and isinstance(self.env[ch0[0]].v, Obj):
+                from .algebra import atom as _atom
+                return _atom(".".join([self.env[ch0[0]].v.name] + ch0[1:]))
         if isinstance(node, ast.Attribute) and self.attrs:
             ch = attr_chain(node)
             if ch and ".".join(ch) in self.attrs:
